@@ -120,7 +120,7 @@ int EvalExpression::run(AsmContext *asm_context, Var &answer, bool is_paren)
       // 4:   oper
       // 5: (num)
 
-      if (need_symbol(count) || var_stack.size() == 3)
+      if (need_symbol(count))
       {
         print_error_unexp(asm_context, token);
         return -1;
@@ -132,7 +132,7 @@ int EvalExpression::run(AsmContext *asm_context, Var &answer, bool is_paren)
       else
     if (token_type == TOKEN_FLOAT)
     {
-      if (need_symbol(count) || var_stack.size() == 3)
+      if (need_symbol(count))
       {
         print_error_unexp(asm_context, token);
         return -1;
@@ -201,6 +201,16 @@ int EvalExpression::run(AsmContext *asm_context, Var &answer, bool is_paren)
           return -1;
         }
 
+        // Anything waiting that binds at least as tightly as this operator
+        // has both of its values now. What is left waiting binds looser than
+        // everything behind it: 1 | 2 + 3 * 4 keeps all of it until the end.
+        while (oper_stack.is_empty() == false &&
+               oper_stack.get_last().precedence <= oper.precedence)
+        {
+          if (execute_stack(var_stack, oper_stack) != 0) { return  -1; }
+          count -= 2;
+        }
+
         oper_stack.push(oper);
         count++;
       }
@@ -213,18 +223,6 @@ int EvalExpression::run(AsmContext *asm_context, Var &answer, bool is_paren)
       }
 
       return -1;
-    }
-
-    if (var_stack.size() == 3)
-    {
-      if (oper_stack.size() != 2)
-      {
-        print_error_unexp(asm_context, token);
-        return -1;
-      }
-
-      if (execute_stack(var_stack, oper_stack) != 0) { return  -1; }
-      count -= 2;
     }
   }
 
@@ -253,26 +251,13 @@ int EvalExpression::execute_stack(VarStack &var_stack, OperStack &oper_stack)
   Var d;
   Var s;
 
-  if (oper_stack.get_precedence_index() == 0)
-  {
-    oper = oper_stack.pop_first();
+  oper = oper_stack.pop();
 
-    d = var_stack.pop_first();
-    s = var_stack.pop_first();
+  s = var_stack.pop();
+  d = var_stack.pop();
 
-    if (oper.execute(d, s) != 0) { return -1; }
-    var_stack.push_front(d);
-  }
-    else
-  {
-    oper = oper_stack.pop();
-
-    s = var_stack.pop();
-    d = var_stack.pop();
-
-    if (oper.execute(d, s) != 0) { return -1; }
-    var_stack.push(d);
-  }
+  if (oper.execute(d, s) != 0) { return -1; }
+  var_stack.push(d);
 
   return 0;
 }
